@@ -10,7 +10,7 @@
    The switches of the deviations that were repaired in /repo (commits 61e2388 .. f6e5fb8: sort restart crash, skipped
    operands, '//' duplicates, unsorted child steps, floor/ceiling/round, numeric predicates, node-set vs boolean,
    '//' before node types, following and preceding axes, key lookups with non-string or context-dependent values,
-   attribute::node(), normalize-space, stale hash entries) have been removed: both evaluators follow the
+   attribute::node(), node() after a non-node-set (17c1e75), normalize-space, stale hash entries) have been removed: both evaluators follow the
    recommendation there.
 
    Node-sets are lists of items in document order without duplicates (proved in XPathSemP.v for every expression).
@@ -81,18 +81,16 @@ Record flags : Type := {
   f_rootstar : bool;      (* moveto_node_check(): the root matches '*' *)
   f_text : bool;          (* text nodes exist only as the result of child::text() on term nodes *)
   f_canon : bool;         (* set_comp_canonize(): string operand canonized by the type of the compared node *)
-  f_nsaxis : bool;        (* the namespace axis is a syntax error *)
-  f_nonset : bool         (* xpath_pi_node(): node() after something that is not a node-set gives an empty node-set
-                             instead of the type error *)
+  f_nsaxis : bool         (* the namespace axis is a syntax error *)
 }.
 
 Definition spec_flags : flags :=
   {| f_prec := 53; f_n2s := false; f_s2n := false; f_bytes := false; f_strval := false; f_predglobal := false;
-     f_rootstar := false; f_text := false; f_canon := false; f_nsaxis := false; f_nonset := false |}.
+     f_rootstar := false; f_text := false; f_canon := false; f_nsaxis := false |}.
 
 Definition impl_flags : flags :=
   {| f_prec := 64; f_n2s := true; f_s2n := true; f_bytes := true; f_strval := true; f_predglobal := true;
-     f_rootstar := true; f_text := true; f_canon := true; f_nsaxis := true; f_nonset := true |}.
+     f_rootstar := true; f_text := true; f_canon := true; f_nsaxis := true |}.
 
 (* error classes *)
 Definition E_TYPE : N := 7.        (* LY_EVALID: wrong operand / argument type, unknown function, wrong arity *)
@@ -518,10 +516,6 @@ Section Eval.
                                (fun l => Ok (merge_items acc l))) S [])
              (fun l => Ok (VSet l)).
 
-  (* a step applied to something that is not a node-set: a type error; as coded node() gives an empty node-set *)
-  Definition step_nonset (nt : ntest) : res value :=
-    if f_nonset fl && match nt with TNode => true | _ => false end then Ok (VSet []) else Err E_TYPE.
-
   Fixpoint eval (cx : ectx) (e : expr) {struct e} : res value :=
     match e with
     | ERoot => Ok (VSet [IRoot])
@@ -530,7 +524,7 @@ Section Eval.
         bind (eval cx base) (fun bv =>
         match bv with
         | VSet S0 => step_body S0 ds ax nt (fun rv l => apply_preds cx rv ps l)
-        | _ => step_nonset nt
+        | _ => Err E_TYPE          (* a step applied to something that is not a node-set *)
         end)
     | EFilter e' ps =>
         bind (eval cx e') (fun v =>
